@@ -39,6 +39,16 @@ def main():
                 ok = False
                 print("anchor failed: %s\n%s" % (a, r.tail(15)))
         print("anchors run: %d" % len(anchors))
+        # recorded vectors from independent implementations (hashlib, hmac, OpenSSL; see tools/gen_anchors.py)
+        for mod, fn in (("trace/OracleHash.tla", "hash_anchors.ndjson"),):
+            src = os.path.join(vlib.SPEC, "anchors", fn)
+            files = R.split_file(src, 8, fn)
+            total, bad = R.oracle(mod, files, timeout=1800)
+            if bad or R.violations:
+                ok = False
+                print("anchor records rejected by %s: %d of %d, first: %s" % (mod, len(bad), total, str(bad[:1])[:400]))
+            else:
+                print("anchor records accepted by %s: %d" % (mod, total))
     finally:
         R.cleanup()
     return 0 if ok else 2
